@@ -122,7 +122,7 @@ def kindName : TK → String
   | .hook .get => "hook.get" | .hook .set => "hook.set" | .hook .del => "hook.del"
   | .call => "call" | .apply => "apply" | .repr => "repr" | .str => "str" | .hash => "hash" | .dir => "dir"
   | .islice => "islice" | .instancecheck => "instancecheck" | .pickle => "pickle" | .import_ => "import"
-  | .modPresent => "modpresent" | .modattr => "modattr" | .builtinAttr => "builtinattr" | .buildExc => "buildexc"
+  | .modPresent => "modpresent" | .builtinAttr => "builtinattr" | .buildExc => "buildexc"
   | .truth => "truth" | .raise_ => "raise" | .splat => "splat" | .index => "index" | .idpack => "idpack"
   | .typeOf => "typeof" | .inspect => "inspect" | .probeConn => "probeconn" | .mkclass => "mkclass"
   | .modLookup => "modlookup"
